@@ -645,7 +645,10 @@ fn eval_config(ctx: &Ctx, cfg: &Config) -> Eval {
 		};
 		let dir = if want { "passes-but-model-ignores" } else { "ignores-but-model-passes" };
 		let key = if !all_bad {
-			let new_only = kinds.iter().all(|k| matches!(*k, "new" | "new-permuted" | "new-repeat" | "new-prefix+add_file"));
+			// new() reads its files concurrently: only it (and a prefix handed to it) can
+			// reorder files applying in one directory
+			let new_only = kinds.iter().all(|k| matches!(*k, "new" | "new-permuted" | "new-repeat" | "new-prefix+add_file"))
+				&& kinds.iter().any(|k| matches!(*k, "new" | "new-permuted" | "new-repeat"));
 			if cfg.has_same_site_files() && new_only {
 				"C03/same-dir-precedence/new-does-not-keep-listed-order".to_string()
 			} else {
